@@ -5,14 +5,14 @@ from vfprops import PKG
 PART = {
     "C13": {
         "runs": [{"name": "daemonnet", "pkg": PKG["core"], "run": "^TestVF_C13$", "timeout": "25m", "timeout_thorough": "90m"}],
-        "rule": "one scripted history per case (scheme, n, victim, joiner y/n are functions of the case seed; quick 2 cases, thorough 5 schemes on bolt + 1 memdb) "
+        "rule": "one scripted history per case (scheme, n, victim, joiner y/n are functions of the case seed; quick 2 cases, thorough 18 = 5 schemes x 3 on bolt + 3 on memdb) "
                 "on real daemons in a child process: first DKG, 5 rounds, reshare with the victim remaining, transition, 5 rounds, reshare in which the victim leaves, "
                 "plus a forced-leave segment (the leave path is not reachable through the DKG, the harness delivers the SharingOutput the code expects). At every firing of "
                 "key.save.before/created/after, key.reset.mid, dkgstore.save*/savefinished* (any node: the hook does not say whose db it is) and before/after every Put on the "
                 "victim's base store, the victim's config folder is copied with the file-system API while no hooked write of the victim is in flight; an evaluation = one image "
                 "whose bytes differ from the previous image (non-trivial by definition), checked offline with fresh objects; torn prefixes (1/2, len-1) are synthesized only for "
-                "files observed to be rewritten in place; distinct = (crash window label derived from what changed on disk, set of changed files). A subset (quick 10 per case "
-                "covering the hook names, thorough all) is restarted in a grand-child process (NewDrandDaemon + LoadBeaconsFromDisk) against the still running network. "
+                "files observed to be rewritten in place; distinct = (crash window label derived from what changed on disk, set of changed files). A subset (quick: the last image of every crash-window label, "
+                "thorough: all) is restarted in a grand-child process (NewDrandDaemon + LoadBeaconsFromDisk) against the still running network. "
                 "The order of directory-entry events (inotify) of the victim's groups/ folder additionally yields the file sets that existed between un-hooked operations. "
                 "Separately 240 writer runs under strace SIGKILL injection (beacon Put loop / dkg SaveFinished loop x pwrite64|fdatasync x N=1..60); non-trivial = the writer was killed.",
         "assumptions": [
@@ -26,7 +26,7 @@ PART = {
         "runs": [{"name": "daemonnet", "pkg": PKG["core"], "run": "^TestVF_C07$", "timeout": "25m", "timeout_thorough": "90m"}],
         "rule": "end-to-end scenarios on real daemons, one child process each: same-set reshare (threshold +1 when admissible), add 1 + remove 1, and a failed "
                 "(abort | proposal timeout | execution with all kyber traffic dropped) reshare followed by a successful one; quick 3 cases with scheme/variant from the case seed, "
-                "thorough 5 schemes x 5. An evaluation = one round first stored anywhere (verified under the ORIGINAL public key at every node's base store, cross-node agreement, per-node "
+                "thorough 5 schemes x 5 x 2 repetitions. An evaluation = one round first stored anywhere (verified under the ORIGINAL public key at every node's base store, cross-node agreement, per-node "
                 "gap-freedom), one ChainInfo answer compared field by field with the pre-reshare answer, or one bounded-progress checkpoint; non-trivial = rounds within +-3 of the "
                 "transition round, identity comparisons and progress checkpoints; distinct by (scenario, variant, offset to the transition | checkpoint).",
         "assumptions": [
